@@ -24,7 +24,7 @@ class Proc:
 
     def recv(self):
         while b"\n" not in self.buf:
-            r, _, _ = select.select([self.rfd], [], [], 5.0)
+            r, _, _ = select.select([self.rfd], [], [], 5.0 * float(os.environ.get("VERIF_TIMEOUT_SCALE", "1")))
             if not r:
                 raise RuntimeError("process %d does not answer" % self.pid)
             chunk = os.read(self.rfd, 65536)
